@@ -13,6 +13,9 @@
  *   seek <o> <off> <set|cur|end|bad> | tell <o> | flush <o> | eof <o>
  *   read <o> <size> | write <o> <len> <seed> | writehex <o> <hex|-> | print <o> <int> | scan <o>
  *   dump <file> | rm <file>
+ * Ops outside the domain the model covers are answered `O <op> unsup` / `busy` by both sides and not executed: a second
+ * stream on a file, a transfer in the other direction without fseek/fflush in between (undefined in C), a write
+ * beyond 1 MiB, octal/hex/overlong numbers for scan, anything but bounded writes on /dev/full.
  * After every op one `O` line: op, exception, results, state of the object (closed | h<id>:pos:eof as libc sees the raw
  * stream), the stdio calls made by the library during the op, number of live handles.
  *
@@ -106,6 +109,7 @@ int __wrap___isoc99_vfscanf(FILE* fp, const char* fmt, va_list va) { if (passthr
 #define F_FULL 91
 #define MAXIO 262144
 #define FULL_LIMIT 1024
+#define POS_LIMIT 1048576       /* no write beyond 1 MiB: the model keeps files as byte lists */
 enum { L_NONE = 0, L_READ = 1, L_WRITE = 2 };
 
 static var* objs;                       /* main's local array (on the stack, so the collector sees the heap objects) */
@@ -270,6 +274,7 @@ static void do_write(int o, const char* op, size_t len) {
   char ex[128];
   if (was_open && bk[o].last == L_READ && !__real_feof(raw(o))) { O("%s unsup", op); return; }
   if (was_open && bk[o].file == F_FULL && bk[o].pending + (long)len > FULL_LIMIT) { O("%s unsup", op); return; }
+  if (was_open && __real_ftell(raw(o)) > POS_LIMIT) { O("%s unsup", op); return; }
   begin_op(); trk = 1; V_TRY(r_exc, r_ret = (long long)swrite(objs[o], buf1, len)); trk = 0;
   if (!refused_if_closed(o, op, was_open)) {
     size_t r2 = __real_fwrite(buf1, len, 1, bk[o].twin);
@@ -508,7 +513,7 @@ static void exec_op(char** lines, size_t* ip, size_t hi) {
     if (nt != 3) { O("bad-op"); return; }
     long long v = strtoll(tok[2], &e, 10); if (*e) { O("bad-op"); return; }
     int was_open = raw(o) != NULL;
-    if (was_open && ((bk[o].last == L_READ && !__real_feof(raw(o))) || bk[o].file == F_FULL)) { O("print unsup"); return; }
+    if (was_open && ((bk[o].last == L_READ && !__real_feof(raw(o))) || bk[o].file == F_FULL || __real_ftell(raw(o)) > POS_LIMIT)) { O("print unsup"); return; }
     begin_op(); trk = 1; V_TRY(r_exc, r_ret = print_to(objs[o], 0, "%$ ", $I(v))); trk = 0;
     if (!refused_if_closed(o, "print", was_open)) {
       int a = fprintf(bk[o].twin, "%li", (long)v); int b = a < 0 ? -1 : fprintf(bk[o].twin, " ");
